@@ -220,6 +220,58 @@ static int xmit_ec(sess_t *s, const char *field, ec_t dst, const ec_t src, int p
 	return ok;
 }
 
+/* A public key delivered as raw affine coordinates x | y (fixed width, as in key containers that store the
+ * coordinates separately): the decoder checks length and range only, so whether the point is on the curve
+ * is left to the verifier - which the property requires to check it. */
+static int xmit_ec_raw(sess_t *s, const char *field, ec_t dst, const ec_t src) {
+	fault_t *f = find_fault(s, field);
+	ec_t t;
+	int ok = 1;
+	size_t l = 2 * RLC_FP_BYTES, lo;
+	ec_null(t);
+	ec_new(t);
+	ec_norm(t, src);
+	fp_write_bin(wire, RLC_FP_BYTES, t->x);
+	fp_write_bin(wire + RLC_FP_BYTES, RLC_FP_BYTES, t->y);
+	memcpy(wire2, wire, l);
+	if (f && !strcmp(f->kind, "v_offcurve")) wire[l - 1] ^= 1;
+	else if (f && !strcmp(f->kind, "v_neg")) { ec_neg(t, t); fp_write_bin(wire + RLC_FP_BYTES, RLC_FP_BYTES, t->y); }
+	else if (f && !strcmp(f->kind, "v_dbl")) { ec_dbl(t, t); ec_norm(t, t); fp_write_bin(wire, RLC_FP_BYTES, t->x); fp_write_bin(wire + RLC_FP_BYTES, RLC_FP_BYTES, t->y); }
+	else if (f && !strcmp(f->kind, "v_gen")) { ec_curve_get_gen(t); fp_write_bin(wire, RLC_FP_BYTES, t->x); fp_write_bin(wire + RLC_FP_BYTES, RLC_FP_BYTES, t->y); }
+	else if (f && !strcmp(f->kind, "v_rand")) { ec_rand(t); fp_write_bin(wire, RLC_FP_BYTES, t->x); fp_write_bin(wire + RLC_FP_BYTES, RLC_FP_BYTES, t->y); }
+	else if (f && strcmp(f->kind, "v_inf")) l = wire_fault(wire, l, f);
+	tr_printf("MSG %d %s ec kind=%s orig=", s->sid, field, fk(f));
+	tr_hex(wire2, 2 * RLC_FP_BYTES);
+	lo = ec_size_bin(src, 0);
+	ec_write_bin(wire2, lo, src, 0);
+	tr_str(" oval=");
+	tr_hex(wire2, lo);
+	tr_str(" sent=");
+	tr_hex(wire, l);
+	if (l != 2 * RLC_FP_BYTES) ok = 0;
+	else {
+		RLC_TRY {
+			fp_read_bin(dst->x, wire, RLC_FP_BYTES);
+			fp_read_bin(dst->y, wire + RLC_FP_BYTES, RLC_FP_BYTES);
+			fp_set_dig(dst->z, 1);
+			dst->coord = BASIC;
+		} RLC_CATCH_ANY {
+			ok = 0;
+		}
+		if (err_get_code() != RLC_OK) ok = 0;
+	}
+	tr_printf(" dec=%s", ok ? "ok" : "err");
+	if (ok) {
+		wire2[0] = 4;
+		memcpy(wire2 + 1, wire, l);
+		tr_str(" val=");
+		tr_hex(wire2, l + 1);
+	}
+	tr_str("\n");
+	ec_free(t);
+	return ok;
+}
+
 static int xmit_g1(sess_t *s, const char *field, g1_t dst, const g1_t src, int pack) {
 	fault_t *f = find_fault(s, field);
 	g1_t t;
@@ -484,11 +536,32 @@ static int sch_ecdsa(sess_t *s) {
 				}
 				ec_free(p);
 			}
+			if (f && !strcmp(f->kind, "v_forgeord2")) {
+				/* a point of order two on another curve: Q' = (x0, 0) is off the curve; with the pre-hashed digest
+				 * zero (u1 = 0) the verification equation only computes u2 Q', and (r, s) = (x0 mod n, r) gives
+				 * u2 = 1.  Whoever skips the on-curve check accepts. */
+				ec_norm(s->e[0], s->e[0]);
+				fp_prime_back(s->b[1], s->e[0]->x);
+				bn_mod(s->b[1], s->b[1], ord);
+				if (!bn_is_zero(s->b[1])) {
+					bn_copy(s->b[2], s->b[1]);
+					fp_zero(s->e[0]->y);
+					fp_set_dig(s->e[0]->z, 1);
+					s->e[0]->coord = BASIC;
+					s->opt[0] = 1;
+					s->opt[6] = 1;
+					s->msg_len = RLC_MD_LEN;
+					memset(s->msg, 0, s->msg_len);
+					tr_printf("NOTE %d forged-for-order-two-key\n", s->sid);
+				}
+			}
 			return 1;
 		}
 		case 2: {
 			int ok = 1;
-			ok &= xmit_ec(s, "pk", s->e[5], s->e[0], (int)s->opt[1]);
+			/* opt cls = 1: the key travels as raw coordinates */
+			if (s->opt[6] && !ec_is_infty(s->e[0])) ok &= xmit_ec_raw(s, "pk", s->e[5], s->e[0]);
+			else ok &= xmit_ec(s, "pk", s->e[5], s->e[0], (int)s->opt[1]);
 			ok &= xmit_bn(s, "r", s->b[12], s->b[1], 0);
 			ok &= xmit_bn(s, "s", s->b[13], s->b[2], 0);
 			s->blen[0] = xmit_bytes(s, "msg", s->buf[0], s->msg, s->msg_len);
